@@ -67,6 +67,9 @@ pub struct PlanSpec {
     pub stderr_full: bool,
     /// value of RUST_LOG in the tool's environment (None: unset); the output must not depend on it
     pub rust_log: Option<&'static str>,
+    /// TMPDIR of the tool (None: unset, i.e. the shared /tmp - never used by the harness: a directory shared between
+    /// concurrently simulated runs is shared mutable state the simulator does not own)
+    pub tmpdir: Option<PathBuf>,
 }
 
 #[derive(Clone, Debug, Default)]
@@ -149,6 +152,7 @@ pub fn run_zeep(top: &Path, cwd: &Path, args: &[String], plan: &PlanSpec, tag: &
         .env("VERIFSIM_PLAN", &plan_path)
         .env("RUST_BACKTRACE", "0")
         .envs(plan.rust_log.map(|v| ("RUST_LOG", v)))
+        .envs(plan.tmpdir.as_ref().map(|v| ("TMPDIR", v.as_os_str())))
         .stdin(Stdio::null())
         .stdout(Stdio::null());
     match (plan.stderr_full, std::fs::OpenOptions::new().write(true).open("/dev/full")) {
